@@ -167,7 +167,10 @@ func genConf(r *vh.Rng) *ConfSpec {
 // genCase: one deterministic history.
 func genCase(r *vh.Rng, thorough bool) *Case {
 	st := genSettings(r)
-	c := &Case{Kind: "det", Settings: st, Client: r.PickStr([]string{"consume", "retain"})}
+	c := &Case{Kind: "det", Settings: st, Client: r.PickStr([]string{"consume", "retain"}), FailedCb: r.Chance(20)}
+	if r.Chance(12) {
+		return genBurst(r, c)
+	}
 	g := newRecGen(r, st)
 	profile := r.Intn(5) // 0,1 queue  2 direct  3 append-only  4 mixed
 	n := 4 + r.Intn(36)
@@ -275,6 +278,55 @@ func genCase(r *vh.Rng, thorough bool) *Case {
 	return c
 }
 
+// genBurst: producers outrun the consumer by more than the queue holds — k > capacity records are
+// added before any loop iteration (several rounds), then everything is consumed.
+func genBurst(r *vh.Rng, c *Case) *Case {
+	c.Settings.QueueCap = r.Pick64([]int64{1, 2, 5, 1, 2, 5, 3})
+	if r.Chance(4) {
+		c.Settings.QueueCap = 1000
+	}
+	if c.Settings.QueueCap == 1000 {
+		// the default capacity with a stalled consumer: keep the records small
+		c.Settings.MaxBuf = r.Pick64([]int64{4096, 65536})
+	}
+	g := newRecGen(r, c.Settings)
+	capacity := int(c.Settings.QueueCap)
+	rounds := 1 + r.Intn(3)
+	if capacity == 1000 {
+		rounds = 1
+	}
+	for round := 0; round < rounds; round++ {
+		k := capacity + 1 + r.Intn(capacity/2+4)
+		for i := 0; i < k; i++ {
+			s := g.next()
+			if capacity == 1000 && s.N > 40 {
+				s.N = s.N % 40
+			}
+			c.Ops = append(c.Ops, Op{K: "add", R: &s})
+		}
+		// consume some or all of what was accepted
+		steps := capacity + 1
+		if r.Chance(40) {
+			steps = 1 + r.Intn(capacity)
+		}
+		for i := 0; i < steps; i++ {
+			c.Ops = append(c.Ops, Op{K: "step"})
+		}
+		if r.Chance(15) {
+			c.Ops = append(c.Ops, Op{K: "config", C: &ConfSpec{QueueSize: optVal(r, []int64{1, 2, 5, 0})}})
+			if q := c.Ops[len(c.Ops)-1].C.QueueSize; q != nil && *q > 0 {
+				capacity = int(*q)
+			} else if q != nil {
+				capacity = 8 // unbounded from here on: just keep adding a few
+			}
+		}
+	}
+	if r.Chance(60) {
+		c.Ops = append(c.Ops, Op{K: "stop"})
+	}
+	return c
+}
+
 // ---------------------------------------------------------------- free-running cases
 
 type FreeItem struct {
@@ -287,24 +339,53 @@ type Free struct {
 	Direct    [][]RecSpec  `json:"direct"`
 	StopEarly bool         `json:"stop_early"` // cancel right after the producers finished (records may still be queued)
 	Conf      *ConfSpec    `json:"conf,omitempty"`
+	// Accept: how the harness learns which records the bounded queue accepted
+	//   "failed"  it installs RequestQueue.Failed (the sender itself never does)
+	//   "put"     producers call sender.Queue.Put (what Add does) and keep the result; no callback
+	//   "stalled" all records are added, one after the other, before the background goroutine
+	//             is started: exactly the first `capacity` ones are accepted; no callback
+	Accept string `json:"accept"`
+	SlowUs int    `json:"slow_us,omitempty"` // time the client takes per pack (a consumer slower than the producers)
 }
 
 func genFree(r *vh.Rng, thorough bool) *Case {
-	st := Settings{MaxWait: r.Pick64([]int64{3, 10, 25}), QueueCap: r.Pick64([]int64{0, 1000, 1000, 3}),
+	st := Settings{MaxWait: r.Pick64([]int64{3, 10, 25}), QueueCap: r.Pick64([]int64{0, 1000, 1000, 3, 1, 2, 5}),
 		MaxBuf: r.Pick64([]int64{1, 60, 100, 257, 1000, 4096, 65536}), ZipMin: r.Pick64([]int64{0, 40, 100, 300, 1 << 30})}
 	c := &Case{Kind: "free", Settings: st, Client: r.PickStr([]string{"consume", "retain"})}
-	g := newRecGen(r, st)
-	f := &Free{StopEarly: r.Chance(50)}
+	f := &Free{StopEarly: r.Chance(50), Accept: r.PickStr([]string{"failed", "put", "put", "stalled"})}
+	// producers much faster than the sender: bursts without pauses against a slow client
+	fast := r.Chance(45)
+	if fast {
+		f.SlowUs = r.PickInt([]int{100, 500, 2000})
+		if st.QueueCap == 0 || r.Chance(50) {
+			st.QueueCap = r.Pick64([]int64{1, 2, 5, 3})
+		}
+		st.MaxBuf = r.Pick64([]int64{1, 60, 100})
+		c.Settings = st
+	}
 	np := 1 + r.Intn(3)
 	per := 5 + r.Intn(40)
 	if thorough {
 		per = 10 + r.Intn(150)
 	}
+	if f.Accept == "stalled" {
+		switch {
+		case st.QueueCap == 1000 && r.Chance(25):
+			per = (1000 + 1 + r.Intn(30)) / np + 1 // the default capacity, overrun by a stalled consumer
+		case st.QueueCap == 0 || st.QueueCap == 1000:
+			st.QueueCap = r.Pick64([]int64{1, 2, 5})
+			c.Settings = st
+		}
+	}
+	g := newRecGen(r, st)
 	f.Producers = make([][]FreeItem, np)
 	for i := 0; i < per*np; i++ {
 		it := FreeItem{R: g.next()}
+		if per > 200 && it.R.N > 40 {
+			it.R.N %= 40
+		}
 		switch {
-		case r.Chance(70):
+		case fast || r.Chance(70):
 		case r.Chance(50):
 			it.DelayUs = r.Intn(300)
 		case r.Chance(60):
